@@ -15,7 +15,7 @@ import (
 
 // returnsReaching lists the return statements of activation cc whose execution can reach node use without another
 // return of cc in between; ok=false when use can also be reached without passing any of them.
-func (g *c14Graph) returnsReaching(cc *c14Ctx, use *c14Node) (rets []*c14Node, ok bool) {
+func (g *c14Graph) returnsReaching(cc *c14Ctx, use *c14Node) (rets []*c14Node, states []*c14State, ok bool) {
 	seen := map[*c14State]bool{}
 	got := map[*c14Node]bool{}
 	ok = true
@@ -39,6 +39,7 @@ func (g *c14Graph) returnsReaching(cc *c14Ctx, use *c14Node) (rets []*c14Node, o
 					got[s.n] = true
 					rets = append(rets, s.n)
 				}
+				states = append(states, s)
 				continue
 			}
 		}
@@ -47,7 +48,7 @@ func (g *c14Graph) returnsReaching(cc *c14Ctx, use *c14Node) (rets []*c14Node, o
 		}
 		work = append(work, s.in...)
 	}
-	return rets, ok
+	return rets, states, ok
 }
 
 // followedResult returns the term of result i of the followed call `call` (made in activation ctx) as seen from node
@@ -57,15 +58,28 @@ func (g *c14Graph) followedResult(ctx *c14Ctx, call *ast.CallExpr, i int, use *c
 	if cc == nil || use == nil || i >= cc.fn.nres || use.ctx.g != g {
 		return nil
 	}
-	rets, ok := g.returnsReaching(cc, use)
+	rets, states, ok := g.returnsReaching(cc, use)
 	if !ok || len(rets) != 1 {
 		return nil
 	}
 	rn := rets[0]
+	// the operands of the return statement are resolved on the paths that actually lead to the use: of the states of
+	// the return statement only those that reach it count (`if c { id, ok = x, true }; return` seen from where ok holds)
+	if g.fromStates == nil {
+		g.fromStates = map[*c14Node][]*c14State{rn: states}
+		defer func() { g.fromStates = nil }()
+	}
 	rs := rn.ast.(*ast.ReturnStmt)
 	switch {
 	case len(rs.Results) == cc.fn.nres:
 		v := g.canon(cc, rs.Results[i], rn)
+		if !g.stable(v, rn, use) {
+			return nil
+		}
+		return v
+	case len(rs.Results) == 0 && i < len(cc.fn.results) && cc.fn.results[i] != nil:
+		// bare return: the named result variable
+		v := g.resolveVar(cc, cc, cc.fn.results[i], rn)
 		if !g.stable(v, rn, use) {
 			return nil
 		}
